@@ -22,6 +22,7 @@ func rulesC15(c *Ctx) {
 	p := c.P
 	// the patterns find the end of the quoted password at the first unescaped quote
 	stringEndRule(c, "C15.strend")
+	wholeTextC15(c)
 	freshBufC15(c)
 	// ---- no reader ----
 	c.Rule("C15.noreader", "the Password fields of CreateUserStatement and SetPasswordUserStatement are stored by their parse functions and read nowhere in the package: no printer, formatter or encoder can leak what it never loads; statements holding a password are never handed to fmt by value")
@@ -755,4 +756,46 @@ func (p *Program) compiledPatternText(call *ast.CallExpr, env map[types.Object]s
 		return true
 	})
 	return out
+}
+
+// wholeTextC15: the patterns see the text in one piece.
+func wholeTextC15(c *Ctx) {
+	p := c.P
+	c.Rule("C15.wholetext", "Sanitize (and what it calls in the package) does not cut the text into pieces at raw characters (strings.Split, Fields, Cut ...) before the patterns are applied: a `;`, blank or quote inside a password or a quoted name is then a cutting point, the clause is split across two pieces and neither piece matches")
+	sf := p.SSAFunc(p.Func("Sanitize"))
+	if sf == nil {
+		c.Unk("C15.wholetext", "Sanitize", 0, "anchor not found")
+		return
+	}
+	seen := map[*ssa.Function]bool{}
+	n := 0
+	var visit func(f *ssa.Function)
+	visit = func(f *ssa.Function) {
+		if f == nil || seen[f] || f.Pkg != p.SPkg {
+			return
+		}
+		seen[f] = true
+		for _, a := range f.AnonFuncs {
+			visit(a)
+		}
+		for _, b := range f.Blocks {
+			for _, in := range b.Instrs {
+				call, ok := in.(*ssa.Call)
+				if !ok || call.Call.StaticCallee() == nil {
+					continue
+				}
+				cal := call.Call.StaticCallee()
+				visit(cal)
+				if cal.Pkg != nil && cal.Pkg.Pkg.Path() == "strings" {
+					switch cal.Name() {
+					case "Split", "SplitN", "SplitAfter", "SplitAfterN", "Fields", "FieldsFunc", "Cut":
+						n++
+						c.Bad("C15.wholetext", fmt.Sprintf("%s: strings.%s #%d", ssaFuncName(f), cal.Name(), n), call.Pos(), "the text is cut at a raw character before redaction")
+					}
+				}
+			}
+		}
+	}
+	visit(sf)
+	c.OK("C15.wholetext", "functions examined", sf.Pos(), fmt.Sprintf("%d functions, %d cuts", len(seen), n))
 }
